@@ -17,10 +17,17 @@ arbUcurr_entries arbIdx_eq arbIdx_eq_zero propagatorAtArbT_spec propagatorAtArbT
 propagatorAtArbT_at_zero propagatorAtArbT_edge segment_start_value propagatorAtArbT_beyond
 propagatorAtArbT_isSome propagatorAtArbT_is_exp propagatorAtArbT_hasDerivAt
 propagatorAtArbT_tendsto_right '''.split() + [
+    # times of remapped / extended pulses (module C06Def)
+    'FFVerif.C06Def.remapDef_times', 'FFVerif.C06Def.extendDef_times', 'FFVerif.C06Def.nDtOf_eq'] + [
     # the propagators do not depend on which eigen-decomposition LAPACK returns (module Props/C13Prop)
     'FFVerif.C13.segment_propagator_unique', 'FFVerif.C13.piecewise_unique',
     'FFVerif.C13.propagators_unique']
-LEAN_MODULES = ['FFVerif.Props.C02', 'FFVerif.Props.C13Prop']
+LEAN_MODULES = ['FFVerif.Props.C02', 'FFVerif.Props.C13Prop', 'FFVerif.Props.C06Def', 'FFVerif.Props.C04Tile']
+# times and propagators of concatenated / periodically repeated pulses (module C04Tile)
+THEOREMS = THEOREMS + [
+    'FFVerif.C04Tile.times_concat', 'FFVerif.C04Tile.tau_concat', 'FFVerif.C04Tile.times_tile',
+    'FFVerif.C04Tile.tau_tileVec', 'FFVerif.C04Tile.propagators_concat', 'FFVerif.C04Tile.propagators_tile',
+    'FFVerif.C04Tile.propagators_tile_boundary', 'FFVerif.C04Tile.total_propagator_concat', 'FFVerif.C04Tile.total_propagator_tile']
 PINS = ['pinDiagonalize', 'pinPropagatorAtArbT', 'pinConcatenate', 'C02_source_shape']
 GEN_SITES = ['einsum:numeric_diagonalize_0', 'einsum:pulse_sequence_PulseSequence_diagonalize_0',
              'einsum:pulse_sequence_PulseSequence_propagator_at_arb_t_0']
@@ -102,7 +109,7 @@ def check_schroedinger(ctx, case):
     H = gens.seg_hamiltonians(desc)
     d = desc['d']
     probs = []
-    sc = max(1.0, np.max(np.abs(H)))
+    sc = float(np.max(np.abs(H))) or 1.0       # relative to the energy scale of the pulse
     for g in range(len(p.dt)):
         V, D = p.eigvecs[g], p.eigvals[g]
         if np.max(np.abs(H[g] @ V - V*D[None, :])) > 1e-10*sc:
@@ -309,10 +316,15 @@ def search(ctx, deep=False):
          ('thorough', True): 2000}[(ctx.tier, deep)]
     for i in range(n):
         feats = gens.rand_features(rng, 0.3, ['idle', 'zero_dt', 'repeat', 'degenerate',
-                                              'big_angle', 'wide_dt', 'structured'])
+                                              'big_angle', 'wide_dt', 'structured', 'near_repeat',
+                                              'full_rotation'])
         d = int(rng.choice([2, 2, 3, 4, 5]))
         desc = gens.rand_desc(rng, d=d, n_dt=int(rng.integers(1, 7)), features=feats,
                               basis=('ggm',))
+        if i % 3 == 1:
+            # the same physics in another unit of time (energies down to 1e-9, durations up to 1e9
+            # and the other way round): nothing in the diagonalisation may depend on the unit
+            desc = gens.rescale_time(desc, float(10.0**rng.uniform(-9, 9)))
         t = np.concatenate(([0.0], np.cumsum(desc['dt'])))
         xs = np.concatenate((t, np.nextafter(t, -np.inf), np.nextafter(t, np.inf),
                              rng.random(4)*t[-1]))
